@@ -601,6 +601,35 @@ pub fn prove(params: &ToyParams, cheat: &Cheat) -> Result<Artifacts, String> {
     Ok(Artifacts { proof, truth, params: p.clone(), security, queries, raw_queries, transcript_log: tlog })
 }
 
+/// The configuration an honest ToyLayout prover declares for `p`.
+pub fn config_for(p: &ToyParams, n_queries: u64, pow_bits: u8) -> StarkConfig {
+    let log_eval = p.log_trace + p.log_blowup;
+    let vcfg = |h: u64| vector::config::Config { height: Felt::from(h), n_verifier_friendly_commitment_layers: Felt::from(p.n_friendly) };
+    let tcfg = |cols: u64, h: u64| table::config::Config { n_columns: Felt::from(cols), vector: vcfg(h) };
+    let mut inner = Vec::new();
+    let mut h = log_eval;
+    for s in &p.steps[1..] {
+        h -= s;
+        inner.push(tcfg(1u64 << s, h as u64));
+    }
+    StarkConfig {
+        traces: trace::config::Config { original: tcfg(2, log_eval as u64), interaction: tcfg(1, log_eval as u64) },
+        composition: tcfg(2, log_eval as u64),
+        fri: swiftness_fri::config::Config {
+            log_input_size: Felt::from(log_eval as u64),
+            n_layers: Felt::from(p.steps.len() as u64),
+            inner_layers: inner,
+            fri_step_sizes: p.steps.iter().map(|s| Felt::from(*s as u64)).collect(),
+            log_last_layer_degree_bound: Felt::from(p.log_last as u64),
+        },
+        proof_of_work: swiftness_pow::config::Config { n_bits: pow_bits },
+        log_trace_domain_size: Felt::from(p.log_trace as u64),
+        n_queries: Felt::from(n_queries),
+        log_n_cosets: Felt::from(p.log_blowup as u64),
+        n_verifier_friendly_commitment_layers: Felt::from(p.n_friendly),
+    }
+}
+
 pub fn honest_base(params: &ToyParams) -> Result<Base, String> {
     let art = prove(params, &Cheat::None)?;
     let image = serde_json::to_value(&art.proof).map_err(|e| e.to_string())?;
